@@ -1,5 +1,6 @@
 import Falcon.Props.C06
 import Falcon.Lemmas.KeyCodecSk
+import Falcon.Lemmas.RecomputeG
 
 /-!
 # C05 — sizes and exact round trip (format side) and the key-generation guards
@@ -91,6 +92,31 @@ theorem secret_key_roundtrip (chk : Bool) (N : Nat) (hN : N = 512 ∨ N = 1024) 
   · exact sk_roundtrip chk 1024 5 2304 (Or.inr ⟨rfl, rfl, rfl⟩) f g cF lf lg lF
       (fun x hx => by simpa using hfg x (by simp [hx])) (fun x hx => by simpa using hfg x (by simp [hx]))
       (fun x hx => hFG x (by simp [hx]))
+
+/-- **the decoded secret key is the original one**: the fourth polynomial is not stored; `from_bytes` recomputes it
+    as intt(ntt g ⊙ (ntt f)⁻¹ ⊙ ntt F) with the batch inversion.  For every key with f⋆G − g⋆F = q over ℤ, f
+    invertible in the NTT domain and |G_i| ≤ 127 (what `ntru_gen` guarantees), the recomputation does not panic in
+    either build mode and its centred representatives are exactly G -/
+theorem recomputed_G_is_G (chk : Bool) (d : Nat) (hd : d ≤ 10) (f g cF cG : List Int)
+    (lf : f.length = 2 ^ d) (lg : g.length = 2 ^ d) (lF : cF.length = 2 ^ d) (lG : cG.length = 2 ^ d)
+    (hntru : RingZ.ntruLhs (2 ^ d) f g cF cG = (12289 : Int) :: List.replicate (2 ^ d - 1) 0)
+    (hinv : ∀ x ∈ Ntt.ntt d (Ntt.toZq f), x ≠ 0) (hG : ∀ x ∈ cG, x.natAbs ≤ 127) :
+    ∃ finv cg', Zq.batchInv chk (Ntt.ntt d (Ntt.toZq f)) = .ok finv ∧
+      Ntt.intt d (Ntt.hadamard (Ntt.hadamard (Ntt.ntt d (Ntt.toZq g)) finv) (Ntt.ntt d (Ntt.toZq cF))) = .ok cg' ∧
+      cg'.map (fun (a : Nat) => if a > 6144 then (a : Int) - 12289 else (a : Int)) = cG := by
+  obtain ⟨finv, h1, h2⟩ := Ntt.recomputed_G chk d hd f g cF cG lf lg lF lG hntru hinv
+  refine ⟨finv, _, h1, h2, ?_⟩
+  simp only [Ntt.toZq, List.map_map]
+  conv => rhs; rw [← List.map_id cG]
+  apply List.map_congr_left
+  intro x hx
+  have := hG x hx
+  simp only [Function.comp, id]
+  have ha : ((Zq.new x : Nat) : Int) = x % 12289 := by simp only [Zq.new, Zq.q, Gen.q]; omega
+  generalize Zq.new x = a at ha
+  by_cases hgt : a > 6144
+  · simp only [hgt, if_true]; omega
+  · simp only [hgt, if_false]; omega
 
 /-- a signature survives serialisation: decoding what `to_bytes` wrote gives back salt and body -/
 theorem signature_roundtrip_512 (salt s : List Nat) (hs : salt.length = 40) (hb : s.length = 625) :
